@@ -117,3 +117,12 @@ def _big_labels_program(n=24000):
 
 # a program whose debug-label table is > 16 MiB of JSON (192 001 labels): size-dependent code paths of the writers
 BIG = {'n_big_labels': (False, [_big_labels_program()])}
+
+# pairs of programs that define a namespaced macro with the SAME full name and arity but different parameter /
+# local-label names (anything keyed by macro name alone would confuse them)
+OK.update({
+    'n_ns2': (False, ["ns foo {\n  def m dst {\n    ;dst\n  }\n  ns bar {\n    def k @ other {\n      ;other\n     other:\n    }\n  }\n}\n"
+                      "foo.m fin\nfoo.bar.k\nfin:\n  ;fin\n"]),
+    's_ns_a': (True, ["ns app {\n  def put ch @ skip {\n    stl.output ch\n    ;skip\n   skip:\n  }\n}\nstl.startup\napp.put 'a'\nstl.loop\n"]),
+    's_ns_b': (True, ["ns app {\n  def put value @ after {\n    ;after\n   after:\n    stl.output value\n  }\n}\nstl.startup\napp.put 'b'\nstl.loop\n"]),
+})
